@@ -5,7 +5,8 @@
  *   character -- so "\n", "\r\n" and stray control bytes never reach a reader -- NUL-terminated, with len == its length;
  *   there is always room for one more line (the table grows: initial size shrunk to KV_INCAP, rule R3);
  *   the file is closed, and after free_in_buffer() nothing remains allocated (CBMC memory-leak check).
- * Symbolic: every byte of every line (full byte range, including NUL, control and >= 0x80 bytes).                       */
+ * Symbolic: every byte of every line (full byte range, including NUL, control and >= 0x80 bytes).  KV_NOEOL: the last
+ * line of the file has no newline.                     */
 #include <stdio.h>
 #include <stdlib.h>
 #include <string.h>
@@ -35,9 +36,15 @@ ssize_t kv_getline(char** lineptr, size_t* n, FILE* f)
         if(*lineptr == NULL){ *lineptr = malloc(KV_LW + 2); __CPROVER_assume(*lineptr != NULL); *n = KV_LW + 2; }
         k = kv_next_line;
         for(i = 0; i < KV_LW; i++){ (*lineptr)[i] = lines[k][i]; }
+        kv_next_line++;
+#ifdef KV_NOEOL
+        if(k == KV_NL - 1){              /* the file does not end in a newline: the last line comes without one */
+                (*lineptr)[KV_LW] = 0;
+                return KV_LW;
+        }
+#endif
         (*lineptr)[KV_LW] = '\n';
         (*lineptr)[KV_LW + 1] = 0;
-        kv_next_line++;
         return KV_LW + 1;
 }
 int kv_file_exists(const char* name){ (void)name; return 1; }
